@@ -59,6 +59,10 @@ POINTS = {
     'P6': (2.0, 0.0),      # between P5 and PN
     'PN': (-1.0, 0.5),     # FINITE value (between P6 and P0) but infinite gradient: d/db1 (b1+1)**0.5 at b1 = -1
     'PQ': (0.3, -4.0),     # value NOT A NUMBER (log of a negative number) while every derivative is finite
+    'PM': (0.55, -2.5),    # finite value (between P3 and P0); the gradient entry of the SECOND parameter is NaN (+inf and -inf
+                           # added over the rows), the entry of the first one is finite
+    'PH': (0.6, 9.25),     # finite value (far below everything) and FINITE derivatives, one of them of the order of 1e200 (its
+                           # square is not a double): the only way to see it in the file is to evaluate it first
 }
 MODEL_NAME = 'm15'
 ITER = f'__{MODEL_NAME}.iter'
@@ -76,7 +80,9 @@ def ref_ll(p, x=X, y=Y):
     if b1 < -1.0 or b2 <= -3.0:
         return float('nan'), False
     f = -sum((yy - b1 * xx - e) ** 2 + (b1 + 1.0) ** 0.5 - math.log(b2 + 3.0) for xx, yy in zip(x, y))
-    return f, math.isfinite(f) and b1 > -1.0
+    # (the two extra terms of the model are exactly 0 at every point of the alphabet; at PM the first one makes the
+    # derivative with respect to b2 not a number; at PH the derivatives are finite)
+    return f, math.isfinite(f) and b1 > -1.0 and not (b1 == 0.55 and b2 == -2.5)
 
 
 def bits(v: float) -> str:
@@ -111,7 +117,7 @@ class RefModel:
 
 
 def make_biogeme(names=('b1', 'b2'), start=(0.0, 0.0), fs=None, bounds=None, algo=None,
-                 extreme=False, x=X, y=Y, extra=None):
+                 extreme=False, x=X, y=Y, extra=None, spikes=True):
     import numpy as np
     import pandas as pd
     import biogeme.biogeme as bb
@@ -132,6 +138,13 @@ def make_biogeme(names=('b1', 'b2'), start=(0.0, 0.0), fs=None, bounds=None, alg
     else:
         from biogeme.expressions import log
         ll = -((Variable('y') - ba * Variable('x') - exp(bbeta)) ** 2) - (ba + 1.0) ** 0.5 + log(bbeta + 3.0)
+        # (not for the runs of real optimisers, which leave the alphabet)
+        # two terms whose VALUE is exactly 0 at every point of the alphabet: the first one has, at PM only, a derivative of
+        # +inf on some rows and -inf on others (their sum is not a number); the second one has, at PH only, a finite
+        # derivative of the order of 1e200
+        if spikes:
+            ll = ll + (bbeta + 2.5) * exp(700.0 - 1e6 * (ba - 0.55) ** 2) * (Variable('x') - 2.5) * 1e10 \
+                - (ba - 0.6) * 1e100 * exp(230.0 - 50.0 * (bbeta - 9.25) ** 2)
     kw = dict(save_iterations=True, generate_html=False, generate_pickle=False)
     if algo:
         kw['optimization_algorithm'] = algo
@@ -275,7 +288,26 @@ def run_history(history, rec: Rec | None, case_desc, fs=None, collect=None):
         p = POINTS[ev[0]]
         x = np.array(p, dtype=float)
         flags = ev[2] if len(ev) > 2 else 0   # 0: gradient only, 1: + hessian, 2: + bhhh, 3: both
-        b.calculate_likelihood_and_derivatives(x, scaled=bool(ev[1]), hessian=bool(flags & 1), bhhh=bool(flags & 2))
+        if flags == 4:
+            # the vector of values is a plain list of Python numbers (the declared type allows it)
+            x, flags = [float(v) for v in p], 0
+        elif flags == 5:
+            # ... or a single-precision array: the point evaluated is the double each entry converts to
+            x, flags = np.array(p, dtype=np.float32), 0
+            p = tuple(float(v) for v in x)
+        try:
+            b.calculate_likelihood_and_derivatives(x, scaled=bool(ev[1]), hessian=bool(flags & 1), bhhh=bool(flags & 2))
+        except Exception as e:
+            from vf.engine import is_engine_error
+            if is_engine_error(e):
+                raise
+            # an evaluation an optimiser may issue (any point, any of the declared forms of the vector) is answered, at
+            # worst with a warning about the derivatives: it does not raise
+            kind = {4: 'list', 5: 'float32-array'}.get(ev[2] if len(ev) > 2 else 0, 'float64-array')
+            bad = (i, (f'evaluation-raises-{type(e).__name__}|vector={kind}', f'{type(e).__name__}: {str(e)[:150]}'))
+            if rec is not None:
+                rec.case(('a', tuple(map(tuple, history[: i + 1]))), (ev, 'raised'), outcome=('raised', type(e).__name__))
+            break
         f, fin = ref_ll(p)
         ref.evaluate(p, f, fin)
         content = read_file(fs)
@@ -292,11 +324,13 @@ def run_history(history, rec: Rec | None, case_desc, fs=None, collect=None):
 # --------------------------------------------------------------------------- tasks
 def events(with_scaled):
     """(point, scaled, derivative flags): the flags vary which second-order quantities are requested with the
-    evaluation (0 none, 1 Hessian, 2 BHHH, 3 both); saving must not depend on them."""
+    evaluation (0 none, 1 Hessian, 2 BHHH, 3 both); saving must not depend on them.  Flags 4 and 5: the vector of values
+    is handed over as a plain list / as a single-precision array."""
     pts = list(POINTS)
     if not with_scaled:
         return [(p, 0, 0) for p in pts]
-    return [(p, s, f) for p in pts for (s, f) in ((0, 0), (1, 0), (0, 1), (0, 3))]
+    return [(p, s, f) for p in pts for (s, f) in ((0, 0), (1, 0), (0, 1), (0, 3), (0, 4), (0, 5))
+            if not (f == 5 and p in ('PM', 'PH'))]      # (the two spikes sit on double-precision values)
 
 
 def tasks(tier, seed):
@@ -402,7 +436,7 @@ def _part_a(task, rec):
         if bad:
             i, (clause, detail) = bad
             h = hist[: i + 1]
-            rec.violation(f'C15|{clause}|pattern={pattern(h)}',
+            rec.violation(f'C15|{clause}' if clause.startswith('evaluation-raises') else f'C15|{clause}|pattern={pattern(h)}',
                           f'{clause} after evaluation history {[e[0] for e in h]}: {detail}',
                           dict(part='a', history=[list(e) for e in h]), observed=detail)
 
@@ -445,7 +479,7 @@ def _part_b(task, rec):
         if interrupt:
             extra['max_iterations'] = 1
             extra['bootstrap_samples'] = 2
-        b = make_biogeme(start=tuple(task['start']), bounds=BOUNDS[task['bounds']], algo=task['algo'], extra=extra)
+        b = make_biogeme(start=tuple(task['start']), bounds=BOUNDS[task['bounds']], algo=task['algo'], extra=extra, spikes=False)
         ref = RefModel()
         phase = {'boot': False}
         state = {'bad': None, 'n': 0}
